@@ -208,6 +208,7 @@ def run_gcase(case, seed=0, replay_dir=None, known=None):
         pre = list(case.pre(inp)) + qdom.inverted_nonzero()
         allv = lambda: list(V.vars.values()) + [z3.Real(n) for n in P_VARS.names if n.startswith("@")]
         nontrivial = 0
+        violated_labels = set()
         for label, lhs, rhs in rels:
             cl, cr = _coeffs(lhs), _coeffs(rhs)
             for key in sorted(set(cl) | set(cr), key=lambda k: (str(type(k)), k)):
@@ -216,6 +217,10 @@ def run_gcase(case, seed=0, replay_dir=None, known=None):
                 a, b = cl.get(key, Q(0)), cr.get(key, Q(0))
                 lab = f"{label}@{key}"
                 ob = {"label": lab}
+                if label in violated_labels:
+                    ob.update(status="violated (same quantity already replayed)", seconds=0.0, how="skipped")
+                    res["obligations"].append(ob)
+                    continue
                 dis, side = qdom.diff_terms(a, b)
                 if not dis:
                     ob.update(status="unsat", seconds=0.0, how="syntactic")
@@ -234,6 +239,7 @@ def run_gcase(case, seed=0, replay_dir=None, known=None):
                     rep = replay_g(case, vals, label, _order_of(key), real)
                     ob["replay"] = rep["summary"]
                     if rep["violates"]:
+                        violated_labels.add(label)
                         keyname = f"{case.name}:{label}"
                         path = _write_replay(case, vals, label, _order_of(key), rep, replay_dir)
                         v = {"label": lab, "key": keyname, "replay": path, "detail": rep["summary"]}
@@ -266,7 +272,7 @@ def replay_g(case, vals, label, order, real):
     s^(K+1) (K = highest claimed order) when s is halved; a coefficient mismatch at order k <= K makes it shrink like s^k."""
     K = max(case.claim_orders)
     rs = []
-    steps = [Fraction(1, 8), Fraction(1, 16), Fraction(1, 32)]
+    steps = list(getattr(case, "replay_steps", (Fraction(1, 64), Fraction(1, 128), Fraction(1, 256))))
     for s0 in steps:
         def rerun(xvals=None, s0=s0):
             vv = dict(vals)
@@ -287,7 +293,7 @@ def replay_g(case, vals, label, order, real):
         obs = math.log2(rs[1] / rs[2])
     violates = obs < K + 0.6
     return {"violates": bool(violates), "residuals": rs, "observed_order": obs,
-            "summary": f"real-code residual at s=1/8,1/16,1/32: {rs[0]:.3e} {rs[1]:.3e} {rs[2]:.3e}; observed order {obs:.2f}, "
+            "summary": f"real-code residual at s={steps[0]},{steps[1]},{steps[2]}: {rs[0]:.3e} {rs[1]:.3e} {rs[2]:.3e}; observed order {obs:.2f}, "
                        f"claimed > {K} (coefficient mismatch at order {order})"}
 
 
